@@ -28,7 +28,7 @@ pub fn seed_from_env() -> u64 {
         .unwrap_or(1)
 }
 
-fn tmp_dir() -> PathBuf {
+pub fn tmp_dir() -> PathBuf {
     let d = std::env::var("CARGO_TARGET_DIR")
         .map(PathBuf::from)
         .unwrap_or_else(|_| verif_dir().join("target"))
@@ -803,6 +803,18 @@ pub fn check_main(prop: &str, tier: Tier, extra: &dyn Fn(Tier, u64, u64, &BTreeM
         .and_then(|s| s.parse().ok())
         .unwrap_or_else(|| cases::plan_runs(prop, tier));
     println!("qsim check property={prop} tier={} VERIF_SEED={seed} planned_runs={planned}", tier.name());
+    // schedule directories left behind by workers that were killed (their process is gone)
+    if let Ok(rd) = std::fs::read_dir(tmp_dir()) {
+        for e in rd.flatten() {
+            let name = e.file_name().to_string_lossy().to_string();
+            if let Some(rest) = name.strip_prefix("sched-") {
+                let pid = rest.split('-').next().unwrap_or("");
+                if !pid.is_empty() && !std::path::Path::new(&format!("/proc/{pid}")).exists() {
+                    let _ = std::fs::remove_dir_all(e.path());
+                }
+            }
+        }
+    }
     let t0 = Instant::now();
     let mut found: Vec<Found> = vec![];
     let mut harness_errors: Vec<String> = vec![];
